@@ -261,6 +261,9 @@ def operations():
     W = np.array([.25, .5, .25])
     op('CellBasis(mL,eLpp,quadX1)', {'mL', 'eLpp'})(lambda P: _basis_obs(fem.CellBasis(P['mL'], P['eLpp'], quadrature=(X1, W))))
     op('CellBasis(mL,eLpp,quadX2)', {'mL', 'eLpp'})(lambda P: _basis_obs(fem.CellBasis(P['mL'], P['eLpp'], quadrature=(X2, W))))
+    # ... at points that share some entries with X1 at the same index (a staleness test on "all entries differ" misses these)
+    X3 = np.array([[.125, .375, .875]])
+    op('CellBasis(mL,eLpp,quadX3)', {'mL', 'eLpp'})(lambda P: _basis_obs(fem.CellBasis(P['mL'], P['eLpp'], quadrature=(X3, W))))
     # ... and at points that differ by less than 1e-8 (a tolerance-based staleness test would call them equal)
     X1e = X1 + 2.0 ** -27
     op('CellBasis(mL,eLpp,quadX1+2^-27)', {'mL', 'eLpp'})(lambda P: _basis_obs(fem.CellBasis(P['mL'], P['eLpp'], quadrature=(X1e, W))))
